@@ -6,10 +6,11 @@ from pathlib import Path
 V = Path(__file__).resolve().parent.parent
 props = [json.loads(l) for l in (V/'properties.jsonl').read_text().splitlines() if l.strip()]
 checks, na = [], []
+ready = set((V/'READY').read_text().split())
 for p in props:
     pid = p['id']
     f = V/'harness'/f'{pid.lower()}.py'
-    if not f.exists():
+    if not f.exists() or pid not in ready:
         na.append({"property_id": pid, "reason": "check not built yet in this revision of /verif (the technique applies; see DESIGN.md section 6); not claimed until its model, theorems and correspondence exist"})
         continue
     meta = None
@@ -44,5 +45,18 @@ man = {
     "notes": "Exit 2 from ./check means an infrastructure failure of the harness, never a violation. known_findings.json is read-only at run time.",
     "not_applicable": na,
 }
+# lakefile default targets: the proof library (root imports only READY proof modules) + drivers of READY checks
+import re
+drivers = []
+for c in checks:
+    for n in ast.parse((V/'harness'/f"{c['property_id'].lower()}.py").read_text()).body:
+        if isinstance(n, ast.Assign) and getattr(n.targets[0], 'id', '') == 'META':
+            for d in ast.literal_eval(n.value).get('drivers', ['drv_elapsed']):
+                if d not in drivers:
+                    drivers.append(d)
+lf = V/'lean'/'lakefile.toml'
+txt = lf.read_text()
+txt = re.sub(r'defaultTargets = \[[^\]]*\]', 'defaultTargets = [' + ', '.join(f'"{t}"' for t in ['PyodaProofs'] + drivers) + ']', txt)
+lf.write_text(txt)
 (V/'MANIFEST.json').write_text(json.dumps(man, indent=1) + "\n")
 print(len(checks), 'checks;', len(na), 'pending')
